@@ -566,3 +566,82 @@ Example empty_exact_block_refuted_pinned :
     = [ ("envSet", ["A"; "c"]); ("setupRequired", ["b"]) ]%string /\
   cmds (Blocks.table_actions true false (lit "top") (table_text eout) inexact_env) = [ ("envSet", ["A"; "c"]) ]%string.
 Proof. repeat split; vm_compute; reflexivity. Qed.
+
+(* ================================================================================================
+   The exact-reproduction clause in full.
+   The build is a run of the composed model of C01 (Model/SetupFull.v: Eups.setup with C03's resolver in place
+   of the decision stream); C01's closure theorem (Proofs/SetupFullClosure.v closure_lemma = Props/C01.v
+   closure_exact) says what a conflict-free build leaves set up; the expansion pins all of it
+   (exact_block_complete); the replay records it again.  The hypothesis [covered] of exact_reproduces_partial is
+   derived (Proofs/ExpandFull.v build_is_pinned).
+   ================================================================================================ *)
+From Eupsv Require Import Model.Resolve Model.ResolveSpec Model.SetupFull.
+From Eupsv Require Import Proofs.SetupFrame Proofs.SetupInv Proofs.SetupFullClosure Proofs.ExpandFull.
+
+(* HYPOTHESES THAT REMAIN
+   the build (those of C01's closure_exact_request, and a shell in which nothing is set up):
+     WF2 of the world; no --max-depth; the database view well formed and the comparator a total order on the
+     declared version names; the VRO is the one selectVRO makes for the request and has no keep;
+     [conflict_free ... D]: one assignment D of versions explains the request and every dependency line of every
+     reachable table (no line with -j) - no product is requested in two versions;
+     no path variable of the starting environment holds a dollar; no SETUP_ variable is set;
+     request_full succeeds with final state stb.
+   the expansion:
+     [expand] (the repaired code) succeeds on the final environment of the build, empty productList;
+     [lists_cover fw D top rd ls] (Proofs/ExpandFull.v): the lists rd that Table.dependencies returned for the
+     products named by the table's lines name every member of C01's closure reach_ok fw D top (the dependency walk
+     is not part of Model/Expand.v: rd is an input, the correspondence check feeds the lists the real walk returns).
+   the later database w' (arbitrary otherwise: newer versions, moved tags - no tag appears, the decisions are the
+   explicit versions of the exact block, which is what C03's explicit_version theorems give for the resolver):
+     the table of top topv in w' is the exact reading of the expanded table (plus optional lines that do not
+     resolve); topv is the version D assigns to top; the other lines mean commands that cannot fail and set no
+     SETUP_ variable; every pinned version is still declared, its own commands likewise (its setup lines are not
+     followed: -j); product names do not collide in upper case and no NAME_DIR is itself a SETUP_ variable; the
+     replay starts where no SETUP_ variable is set; fuel 2.
+   CONCLUSION
+     (0) the build recorded top at topv, and (1) so does the replay;
+     (2) every product the world knows that the build left set up is recorded by the replay at its build-time
+         version - although w' may prefer other versions;
+     (3) whatever the replay records, apart from top, the build had recorded at that very version. *)
+Theorem exact_reproduces vcmp vmatch fw cfg rc flavors dl rank vro top version D fuel st0 stb tr
+                         force rd ls out w' cfg' interp ptop topv absent fuel' st1 :
+  WF2 (fw_products fw) dl rank -> c_max_depth cfg = None ->
+  wf_db (db_of cfg fw) = true -> (forall n, total_order_on vcmp (names_of (db_of cfg fw) n)) ->
+  select_vro rc (request_opts cfg version) = Ok vro -> mem_entry EKeep vro = false ->
+  conflict_free vcmp vmatch fw cfg rc flavors vro top {| li_version := version; li_expr := None |} D ->
+  nodollar_paths (fw_products fw) (s_env st0) ->
+  (forall m, alookup (setup_var m) (s_env st0) = None) ->
+  request_full vcmp vmatch fw cfg rc flavors fuel st0 top version true false = Ok (Some stb, tr) ->
+  expand (fw_products fw) (s_env stb) top [] force rd ls = Ok out ->
+  lists_cover fw D top rd ls ->
+  D top = Some topv ->
+  c_max_depth cfg' = None ->
+  find_pv w' top topv = Some ptop ->
+  p_actions ptop = exact_actions interp (exact_view out) ++ map absent_action absent ->
+  (forall t, Forall simple_action (interp t)) ->
+  (forall n v o, In (n, v, o) (pins_of out) ->
+     exists p, find_pv w' n v = Some p /\ Forall quiet_action (p_actions p)) ->
+  sane top -> (forall x, In x (pins_of out) -> sane (pin_name x)) ->
+  NoDup (upper_str top :: map (fun x => upper_str (pin_name x)) (pins_of out)) ->
+  (forall m, alookup (setup_var m) (s_env st1) = None) ->
+  2 <= fuel' ->
+  (exists q, find_pv (fw_products fw) top topv = Some q /\
+             find_setup_product (fw_products fw) (s_env stb) top = Some q) /\
+  exists st',
+    setup w' cfg' fuel' st1 (forced_decisions topv (pins_of out) absent) top true 0 false = RDone true st' [] /\
+    alookup (setup_var top) (s_env st') = Some (setup_string cfg' top topv) /\
+    (forall k q, known (fw_products fw) k -> k <> top ->
+       find_setup_product (fw_products fw) (s_env stb) k = Some q ->
+       alookup (setup_var k) (s_env st') = Some (setup_string cfg' k (p_version q))) /\
+    (forall m, alookup (setup_var m) (s_env st') <> None -> upper_str m <> upper_str top ->
+       exists n v, setup_var n = setup_var m /\ recorded (s_env stb) n v /\
+                   alookup (setup_var m) (s_env st') = Some (setup_string cfg' n v)).
+Proof.
+  intros H1 H2 H3 H4 H5 H6 H7 H8 H9 H10 H11 H12 H13 H14 H15 H16 H17 H18 H19 H20 H21 H22 H23. split.
+  - exact (build_top vcmp vmatch fw cfg rc flavors dl rank vro top version D H1 H2 H3 H4 H5 H6 H7 fuel st0 stb tr
+             H8 H9 H10 topv H13).
+  - exact (reproduces_full vcmp vmatch fw cfg rc flavors dl rank vro top version D H1 H2 H3 H4 H5 H6 H7 fuel st0 stb tr
+             H8 H9 H10 force rd ls out H11 H12 w' cfg' interp ptop topv absent fuel' st1
+             H14 H15 H16 H17 H18 H19 H20 H21 H22 H23).
+Qed.
+Print Assumptions exact_reproduces.
